@@ -156,7 +156,7 @@ def build_call(case):
             kw["bins"] = 4
         elif b == "nN":
             kw["bins"] = ncells
-        elif b in ("e1", "e3", "eu", "en"):
+        elif b in ("e1", "e3", "eu", "en", "ee"):
             kw["bins"] = [(hb["e0"] + k * hb["w"] + hb.get("q", 0) * k * (k + 1)) / hb["den"] for k in range(hb["nb"] + 1)]
         kw["bins_density"] = bool(case["dens"])
         if case["pal"]:
